@@ -159,8 +159,14 @@ class Entry(object):
                             args.get('individual'), seed)
         if k == 'controller':
             import chi
-            return np.array(
-                chi.SamplingController(o, seed=seed)._initial_params)
+            cls = chi.OptimisationController if args.get(
+                'ctrl') == 'optimisation' else chi.SamplingController
+            ctrl = cls(o, seed=seed)
+            # the number of runs may be changed several times: the starting
+            # points belong to the seed and the final number of runs
+            for n_ in args.get('runs', []):
+                ctrl.set_n_runs(n_)
+            return np.array(ctrl._initial_params)
         return np.array(o.sample_initial_parameters(args['n_samples'], seed))
 
 
@@ -345,6 +351,9 @@ def run(scenario, world):
                 continue
             if skind == 'int':
                 key = (h, ai, seed)
+                if e.kind == 'controller':
+                    # different histories of set_n_runs, same final number
+                    key = (h, 'final', seed)
                 if key in first:
                     n_repeat += 1
                     world.probe('same_seed_repeated')
@@ -370,7 +379,11 @@ def run(scenario, world):
                                         short(res, 300)), step)
                     others[seed] = res
                 # D4(i): one stream used twice, systematically
-                if stream_reuse(recs):
+                # (a controller whose number of runs is changed samples its
+                # starting points afresh from the same seed each time, by
+                # design: several draws, not one)
+                several = e.kind == 'controller' and args.get('runs')
+                if stream_reuse(recs) and not several:
                     near = reused_near(recs, seed)
                     if near:
                         # holds for this seed whatever other seeds do (a
@@ -525,6 +538,16 @@ def gen_entry(rng, h, kind):
     r['times'] = [list(times) for _ in range(n_out)]
     r['obs'] = [_vals(rng, len(times), 0.2, 2.0) for _ in range(n_out)]
     r['args'] = [{'n_samples': rng.choice([1, 2, 3])} for _ in range(2)]
+    if kind == 'controller':
+        final = rng.randint(1, 4)
+        which = rng.choice(['sampling', 'optimisation'])
+        r['args'] = [
+            {'runs': [final], 'ctrl': which},
+            {'runs': [rng.randint(1, 12) for _ in range(rng.randint(0, 2))]
+             + [final], 'ctrl': which}]
+        if rng.random() < 0.3:
+            r['args'][0]['runs'] = []      # the default number of runs
+            r['args'][1]['runs'] = r['args'][1]['runs'][:-1] + [5]
     if kind in ('init_hp', 'init_fp'):
         nd = n_par if kind == 'init_hp' else n_mech
         n_ids = rng.randint(1, 3)
